@@ -238,6 +238,8 @@ def run(tier, v):
     vlib.run_hv_split("pool", preq, pout, parts=8, timeout=3000)
     n_pool = 0
     for o in vlib.read_ndjson(pout):
+        if o.get("skipped"):
+            continue
         hi, segs, nw, bs = pmeta[o["id"]]
         if "panic" in o:
             v.violation({"api": "worker pool", "segments": segs, "observed": "panic: " + o["panic"]})
@@ -260,6 +262,11 @@ def run(tier, v):
     fout = os.path.join(wd, "fe.out")
     vlib.run_hv_split("ana", freq, fout, parts=6, timeout=3000, env={"HV_PCAP_DIR": os.path.join(wd, "pcap")})
     for o in vlib.read_ndjson(fout):
+        if o.get("skipped"):
+            continue
+        if o.get("hung"):
+            v.violation({"run": str(o["id"]), "observed": "the parallel front end does not finish: 10 s after analyze_pcap returned and the last result arrived, the result channel is still open (a worker has not left)"})
+            continue
         hi, segs = fe_meta[o["id"]]
         path_ = "analyze_pcap, " + ("parallel (2 workers)" if fe_lines[o["id"]]["crate"].endswith("_par") else "sequential")
         if "panic" in o:
